@@ -86,7 +86,7 @@ pub fn syst_err_next() {
 }
 
 #[kani::proof]
-#[kani::unwind(8)]
+#[kani::unwind(12)]
 #[kani::stub(<scpi::parser::tokenizer::Tokenizer as core::iter::Iterator>::next, stub_next)]
 pub fn syst_err_count() {
     set_script(&[]);
@@ -130,7 +130,7 @@ pub fn syst_err_all() {
 /// `*ESR?` returns the accumulated bits and clears them; `*OPC` is the only successful
 /// command that records an event.
 #[kani::proof]
-#[kani::unwind(8)]
+#[kani::unwind(12)]
 #[kani::stub(<scpi::parser::tokenizer::Tokenizer as core::iter::Iterator>::next, stub_next)]
 pub fn esr_and_opc() {
     set_script(&[]);
